@@ -15,7 +15,8 @@ RULE = ("Source parameters drawn with boundary weighting (brightness [0,1] incl.
         "photons, bunched / gaps / herald photons; lossy and lossless 2-5 mode circuits; both backends. Oracle: "
         "own per-photon six-outcome mixture, groups convolved, exact distributions from own permanent; closed "
         "forms for g2 and HOM visibility; reductions for perfect and classical settings. Non-trivial = >= 2 "
-        "photons and (at least two of the three parameters strictly inside their range, or a lossy circuit with brightness strictly inside (0,1)); distinct = case JSON.")
+        "photons and (at least two of the three parameters strictly inside their range, or a lossy circuit with brightness strictly inside (0,1)); distinct = case JSON."
+        " Also: 5-6 photons over three or more occupied modes with all three imperfections present (thousands of intermediate emission configurations).")
 ASSUMPTIONS = [
     "tolerance n_patterns*1e-9*(number of emission configurations) + 1e-8",
     "check_number is only required to be >= 1, <= 6^n and 1 for a perfect source",
